@@ -26,7 +26,20 @@ def discharge(ob, facts, timeout_ms=10000, use_cvc5=True, both=False):
     if z3.is_true(z3.simplify(goal)):
         ob.verdict, ob.backend, ob.time = "proved", "simplify", time.time() - t0
         return ob
-    s = _mk_solver(facts, ob.pc, goal, timeout_ms)
+    if z3.is_false(z3.simplify(goal)):
+        # the path itself is the counterexample: it was found feasible when it was taken
+        s = _mk_solver(facts, ob.pc, goal, min(timeout_ms, 3000))
+        r = s.check()
+        ob.backend = "z3"
+        if r == z3.unsat:
+            ob.verdict = "proved"       # infeasible path
+        else:
+            ob.verdict = "refuted"
+            ob.model = s.model() if r == z3.sat else None
+        ob.time = time.time() - t0
+        return ob
+    quick = min(timeout_ms, 1500)
+    s = _mk_solver(facts, ob.pc, goal, quick)
     r = s.check()
     ob.backend = "z3"
     if r == z3.unsat:
@@ -37,7 +50,7 @@ def discharge(ob, facts, timeout_ms=10000, use_cvc5=True, both=False):
     else:
         ob.verdict = "undecided"
         ob.note = "z3: %s" % s.reason_unknown()
-        # second z3 attempt: nlsat-oriented tactic for nonlinear real goals
+        # second attempt: arithmetic-purifying tactic (decides the nonlinear real goals quickly)
         try:
             t = z3.Then("simplify", "solve-eqs", "purify-arith", "smt").solver()
             t.set("timeout", timeout_ms)
@@ -53,12 +66,18 @@ def discharge(ob, facts, timeout_ms=10000, use_cvc5=True, both=False):
                 ob.verdict, ob.backend, ob.model = "refuted", "z3(tactic)", t.model()
         except z3.Z3Exception:
             pass
+        if ob.verdict == "undecided" and timeout_ms > quick:
+            s = _mk_solver(facts, ob.pc, goal, timeout_ms)
+            r = s.check()
+            if r == z3.unsat:
+                ob.verdict, ob.backend = "proved", "z3"
+            elif r == z3.sat:
+                ob.verdict, ob.backend, ob.model = "refuted", "z3", s.model()
         if ob.verdict == "undecided" and use_cvc5:
             v = cvc5_check(s.to_smt2(), timeout_ms)
             if v == "unsat":
                 ob.verdict, ob.backend = "proved", "cvc5"
             elif v == "sat":
-                # cvc5 says sat but we have no z3 model: keep as refuted without model
                 ob.verdict, ob.backend = "refuted", "cvc5"
     if both and ob.verdict == "proved" and ob.backend.startswith("z3"):
         v = cvc5_check(s.to_smt2(), timeout_ms)
